@@ -33,11 +33,12 @@ def simplex_matrix(n, Kc, eps, prefix="p", open_=True, closed=False):
         P[i, Kc - 1] = last
         base.append(row)
     e = to_rat(eps)
+    hi = to_rat(1 - eps) if isinstance(eps, float) else 1 - e   # the code computes `1 - self.epsilon` in floats
     for i in range(n):
         for k in range(Kc):
             if open_:
                 assume(P[i, k] > e)
-                assume(P[i, k] < 1 - e)
+                assume(P[i, k] < hi)
             elif closed:
                 assume(P[i, k] >= 0)
                 assume(P[i, k] <= 1)
